@@ -6,8 +6,8 @@ CONSTANTS
   MaxOps = 6
   Notifs <- NotifsS
   MaxNotif = 2
-  MaxDup = 0
-  DistinctPatterns = FALSE
-  Bug = "cmdOnly"
+  MaxDup = 2
+  DistinctPatterns = TRUE
+  Bug = "none"
   OneQueryPerCmd = FALSE
 CHECK_DEADLOCK FALSE
